@@ -19,3 +19,5 @@ def run(out, sc, tier, seed):
     run_progs(out, sc, "C09", {"gen": "progs", "n": n, "seed": seed, "surrogate_p": 0.02, "surrogate_base_p": 0.04, "extras": ["twin"],
                                "encoded_p": 0.3}, "progs", shard_size=600)
     replay_behaviours(out, sc, tier, seed, "C09")
+    from .common import run_witnesses
+    run_witnesses(out, sc, "C09")
